@@ -1,13 +1,10 @@
 import Obao.Model.Expiration
-/-! Invariant lemmas for `Obao/Props/C05b.lean`: stored ids = tracked ids through every primitive. -/
+/-! Invariant lemmas for `Obao/Props/C05b.lean`: for every lease id, "tracked by the manager" = "stored in a namespace
+that is not sealed and not the lease whose restore is held in flight", through every primitive; plus the side
+invariants about `restoreLoaded` marks that make a namespace unseal restore every lease. -/
 namespace Obao.Expiration
 
-/-- `id` has an entry in storage -/
-def sid (s : St) (id : Nat) : Prop := ∃ l ∈ s.stored, l.id = id
-/-- `id` is tracked by the manager -/
-def tracked (s : St) (id : Nat) : Prop := id ∈ s.pending ∨ id ∈ s.irrevocable ∨ id ∈ s.nonexpiring
-/-- tracked = stored -/
-def Inv (s : St) : Prop := ∀ id, sid s id ↔ tracked s id
+/-! ### basic list facts -/
 
 theorem mem_ins (l : List Nat) (x y : Nat) : y ∈ ins l x ↔ y ∈ l ∨ y = x := by
   unfold ins
@@ -23,38 +20,97 @@ theorem mem_ins (l : List Nat) (x y : Nat) : y ∈ ins l x ↔ y ∈ l ∨ y = x
 theorem mem_rm (l : List Nat) (x y : Nat) : y ∈ rm l x ↔ y ∈ l ∧ y ≠ x := by
   simp [rm]
 
-theorem sid_putLease (s : St) (l : Lease) (id : Nat) : sid (putLease s l) id ↔ sid s id ∨ id = l.id := by
-  unfold putLease sid
-  split
-  · rename_i h
-    simp only [List.any_eq_true, beq_iff_eq] at h
-    obtain ⟨x, hx, hxl⟩ := h
-    simp only [List.mem_map]
-    constructor
-    · rintro ⟨l', ⟨y, hy, rfl⟩, hid⟩
-      by_cases hyl : (y.id == l.id) = true
-      · simp only [hyl, if_true] at hid; exact Or.inr hid.symm
-      · simp only [hyl] at hid; exact Or.inl ⟨y, hy, hid⟩
-    · rintro (⟨y, hy, hid⟩ | rfl)
-      · by_cases hyl : (y.id == l.id) = true
-        · exact ⟨l, ⟨y, hy, by simp [hyl]⟩, by rw [← hid]; exact (beq_iff_eq.mp hyl).symm⟩
-        · exact ⟨y, ⟨y, hy, by simp [hyl]⟩, hid⟩
-      · exact ⟨l, ⟨x, hx, by simp [hxl]⟩, rfl⟩
-  · simp only [List.mem_append, List.mem_singleton]
-    constructor
-    · rintro ⟨l', (h1 | rfl), hid⟩
-      · exact Or.inl ⟨l', h1, hid⟩
-      · exact Or.inr hid.symm
-    · rintro (⟨y, hy, hid⟩ | rfl)
-      · exact ⟨y, Or.inl hy, hid⟩
-      · exact ⟨l, Or.inr rfl, rfl⟩
+/-! ### the signature of storage: (lease id, namespace) per entry -/
 
-theorem sid_delLease (s : St) (x id : Nat) : sid (delLease s x) id ↔ sid s id ∧ id ≠ x := by
-  unfold delLease sid
-  simp only [List.mem_filter, bne_iff_ne, ne_eq]
-  constructor
-  · rintro ⟨l, ⟨hl, hne⟩, rfl⟩; exact ⟨⟨l, hl, rfl⟩, hne⟩
-  · rintro ⟨⟨l, hl, rfl⟩, hne⟩; exact ⟨l, ⟨hl, hne⟩, rfl⟩
+def sig (s : St) : List (Nat × Nat) := s.stored.map fun l => (l.id, l.ns)
+
+/-- `id` is tracked by the manager -/
+def tracked (s : St) (id : Nat) : Prop := id ∈ s.pending ∨ id ∈ s.irrevocable ∨ id ∈ s.nonexpiring
+
+/-- `id` ought to be tracked: it has an entry in storage, in a namespace that is not sealed, and it is not the lease a
+held namespace restore has not reached yet -/
+def elig (s : St) (id : Nat) : Prop :=
+  ∃ p ∈ sig s, p.1 = id ∧ s.sealed.contains p.2 = false ∧ s.held.any (·.2 == id) = false
+
+structure Inv (s : St) : Prop where
+  te : ∀ id, tracked s id ↔ elig s id
+  /-- storage is a map: one entry per lease id -/
+  uniq : ∀ p ∈ sig s, ∀ q ∈ sig s, p.1 = q.1 → p = q
+  fresh : ∀ p ∈ sig s, p.1 < s.next
+  mfresh : ∀ m ∈ s.marks, m.1 < s.next
+  /-- a mark carries the namespace of the lease it marks -/
+  mns : ∀ m ∈ s.marks, ∀ p ∈ sig s, p.1 = m.1 → p.2 = m.2
+  /-- no mark of a sealed namespace, no mark on a held lease -/
+  mlive : ∀ m ∈ s.marks, s.sealed.contains m.2 = false ∧ s.held.any (·.2 == m.1) = false
+  hfresh : ∀ h ∈ s.held, h.2 < s.next
+  hns : ∀ h ∈ s.held, s.sealed.contains h.1 = false ∧ ∀ p ∈ sig s, p.1 = h.2 → p.2 = h.1
+  root : s.sealed.contains 0 = false
+
+theorem mem_sig (s : St) (p : Nat × Nat) : p ∈ sig s ↔ ∃ l ∈ s.stored, (l.id, l.ns) = p := by
+  simp [sig]
+
+theorem find?_some_id (s : St) (id : Nat) (l : Lease) (h : find? s id = some l) : l.id = id ∧ l ∈ s.stored := by
+  unfold find? at h
+  have h1 := List.find?_some h
+  exact ⟨by simpa using h1, List.mem_of_find?_eq_some h⟩
+
+/-- the lease is reachable -/
+def live (s : St) (l : Lease) : Prop := unreachable s l = false
+
+theorem live_iff (s : St) (l : Lease) :
+    live s l ↔ s.sealed.contains l.ns = false ∧ s.held.any (·.2 == l.id) = false := by
+  unfold live unreachable
+  simp only [Bool.or_eq_false_iff]
+
+theorem elig_of_live (s : St) (l : Lease) (hl : l ∈ s.stored) (hv : live s l) : elig s l.id :=
+  ⟨(l.id, l.ns), (mem_sig s _).mpr ⟨l, hl, rfl⟩, rfl, ((live_iff s l).mp hv).1, ((live_iff s l).mp hv).2⟩
+
+theorem live_of_elig (s : St) (hI : Inv s) (l : Lease) (hl : l ∈ s.stored) (he : elig s l.id) : live s l := by
+  obtain ⟨p, hp, hid, hs, hh⟩ := he
+  have := hI.uniq p hp (l.id, l.ns) ((mem_sig s _).mpr ⟨l, hl, rfl⟩) hid
+  subst this
+  exact (live_iff s l).mpr ⟨hs, hh⟩
+
+/-! ### storage updates and the signature -/
+
+theorem sig_putLease_same (s : St) (hu : ∀ p ∈ sig s, ∀ q ∈ sig s, p.1 = q.1 → p = q) (l l' : Lease) (hl : l ∈ s.stored)
+    (hid : l'.id = l.id) (hns : l'.ns = l.ns) : sig (putLease s l') = sig s := by
+  unfold putLease
+  have hany : s.stored.any (fun x => x.id == l'.id) = true := List.any_eq_true.mpr ⟨l, hl, by simp [hid]⟩
+  simp only [hany, if_true, sig, List.map_map]
+  apply List.map_congr_left
+  intro x hx
+  simp only [Function.comp]
+  by_cases hxl : (x.id == l'.id) = true
+  · simp only [hxl, if_true]
+    have hx1 : x.id = l.id := by rw [← hid]; exact beq_iff_eq.mp hxl
+    have := hu (x.id, x.ns) ((mem_sig s _).mpr ⟨x, hx, rfl⟩) (l.id, l.ns) ((mem_sig s _).mpr ⟨l, hl, rfl⟩) hx1
+    simp only [Prod.mk.injEq] at this
+    rw [hid, hns, this.1, this.2]
+  · simp [hxl]
+
+theorem sig_putLease_fresh (s : St) (l' : Lease) (hf : ∀ p ∈ sig s, p.1 ≠ l'.id) :
+    sig (putLease s l') = sig s ++ [(l'.id, l'.ns)] := by
+  unfold putLease
+  have hany : s.stored.any (fun x => x.id == l'.id) = false := by
+    rw [Bool.eq_false_iff]
+    intro h
+    obtain ⟨x, hx, hxl⟩ := List.any_eq_true.mp h
+    exact hf (x.id, x.ns) ((mem_sig s _).mpr ⟨x, hx, rfl⟩) (beq_iff_eq.mp hxl)
+  simp [hany, sig]
+
+theorem sig_delLease (s : St) (x : Nat) : sig (delLease s x) = (sig s).filter (·.1 != x) := by
+  unfold delLease sig
+  simp only [List.filter_map]
+  rfl
+
+theorem putLease_frame (s : St) (l : Lease) :
+    (putLease s l).pending = s.pending ∧ (putLease s l).irrevocable = s.irrevocable ∧
+    (putLease s l).nonexpiring = s.nonexpiring ∧ (putLease s l).calls = s.calls ∧
+    (putLease s l).outOfFuel = s.outOfFuel ∧ (putLease s l).frozen = s.frozen ∧
+    (putLease s l).marks = s.marks ∧ (putLease s l).sealed = s.sealed ∧ (putLease s l).held = s.held ∧
+    (putLease s l).next = s.next ∧ (putLease s l).restoreMode = s.restoreMode := by
+  unfold putLease; split <;> exact ⟨rfl, rfl, rfl, rfl, rfl, rfl, rfl, rfl, rfl, rfl, rfl⟩
 
 theorem tracked_updatePending (s : St) (l : Lease) (id : Nat) :
     tracked (updatePending s l) id ↔ tracked s id ∨ id = l.id := by
@@ -68,46 +124,221 @@ theorem tracked_updatePending (s : St) (l : Lease) (id : Nat) :
     · simp only [mem_ins]
       by_cases h : id = l.id <;> simp [h]
 
-theorem stored_updatePending (s : St) (l : Lease) : (updatePending s l).stored = s.stored := by
+theorem updatePending_frame (s : St) (l : Lease) :
+    (updatePending s l).stored = s.stored ∧ (updatePending s l).marks = s.marks ∧
+    (updatePending s l).sealed = s.sealed ∧ (updatePending s l).held = s.held ∧ (updatePending s l).next = s.next ∧
+    (updatePending s l).frozen = s.frozen ∧ (updatePending s l).calls = s.calls ∧
+    (updatePending s l).outOfFuel = s.outOfFuel ∧ (updatePending s l).restoreMode = s.restoreMode := by
   unfold updatePending
   split
-  · rfl
-  · split <;> rfl
-
-theorem sid_updatePending (s : St) (l : Lease) (id : Nat) : sid (updatePending s l) id ↔ sid s id := by
-  unfold sid; rw [stored_updatePending]
+  · exact ⟨rfl, rfl, rfl, rfl, rfl, rfl, rfl, rfl, rfl⟩
+  · split <;> exact ⟨rfl, rfl, rfl, rfl, rfl, rfl, rfl, rfl, rfl⟩
 
 theorem tracked_untrack (s : St) (x id : Nat) : tracked (untrack s x) id ↔ tracked s id ∧ id ≠ x := by
   unfold untrack tracked
   simp only [mem_rm]
   by_cases h : id = x <;> simp [h]
 
-theorem sid_untrack (s : St) (x id : Nat) : sid (untrack s x) id ↔ sid s id := Iff.rfl
+/-- the invariant reads only these components of the state -/
+theorem Inv_congr (s t : St) (h : Inv s) (h1 : sig t = sig s) (h2 : t.pending = s.pending)
+    (h3 : t.irrevocable = s.irrevocable) (h4 : t.nonexpiring = s.nonexpiring) (h5 : t.marks = s.marks)
+    (h6 : t.sealed = s.sealed) (h7 : t.held = s.held) (h8 : t.next = s.next) : Inv t := by
+  have ht : ∀ id, tracked t id ↔ tracked s id := fun id => by unfold tracked; rw [h2, h3, h4]
+  have he : ∀ id, elig t id ↔ elig s id := fun id => by unfold elig; rw [h1, h6, h7]
+  exact ⟨fun id => by rw [ht, he]; exact h.te id, by rw [h1]; exact h.uniq, by rw [h1, h8]; exact h.fresh,
+    by rw [h5, h8]; exact h.mfresh, by rw [h5, h1]; exact h.mns, by rw [h5, h6, h7]; exact h.mlive,
+    by rw [h7, h8]; exact h.hfresh, by rw [h7, h6, h1]; exact h.hns, by rw [h6]; exact h.root⟩
 
-theorem tracked_delLease (s : St) (x id : Nat) : tracked (delLease s x) id ↔ tracked s id := Iff.rfl
-theorem tracked_putLease (s : St) (l : Lease) (id : Nat) : tracked (putLease s l) id ↔ tracked s id := by
-  unfold putLease; split <;> exact Iff.rfl
+/-! ### the elementary steps -/
 
-/-- store-or-replace a lease and `updatePending` it: both sides gain exactly its id -/
-theorem Inv_put_update (s : St) (l : Lease) (h : Inv s) : Inv (updatePending (putLease s l) l) := by
-  intro id
-  rw [sid_updatePending, sid_putLease, tracked_updatePending, tracked_putLease, h id]
+theorem mem_putLease (s : St) (l : Lease) : l ∈ (putLease s l).stored := by
+  unfold putLease
+  split
+  · rename_i h
+    obtain ⟨x, hx, hxl⟩ := List.any_eq_true.mp h
+    simp only [List.mem_map]
+    exact ⟨x, hx, by simp [hxl]⟩
+  · simp
 
-/-- delete a lease and untrack it: both sides lose exactly its id -/
-theorem Inv_del_untrack (s : St) (x : Nat) (h : Inv s) : Inv (untrack (delLease s x) x) := by
-  intro id
-  rw [sid_untrack, sid_delLease, tracked_untrack, tracked_delLease, h id]
+/-- `updatePending` of a stored, reachable lease -/
+theorem Inv_track (s : St) (h : Inv s) (l : Lease) (hl : l ∈ s.stored) (hv : live s l) : Inv (updatePending s l) := by
+  obtain ⟨f1, f2, f3, f4, f5, _⟩ := updatePending_frame s l
+  have hsig : sig (updatePending s l) = sig s := by unfold sig; rw [f1]
+  have he : ∀ id, elig (updatePending s l) id ↔ elig s id := fun id => by unfold elig; rw [hsig, f3, f4]
+  refine ⟨fun id => ?_, by rw [hsig]; exact h.uniq, by rw [hsig, f5]; exact h.fresh, by rw [f2, f5]; exact h.mfresh,
+    by rw [f2, hsig]; exact h.mns, by rw [f2, f3, f4]; exact h.mlive, by rw [f4, f5]; exact h.hfresh,
+    by rw [f4, f3, hsig]; exact h.hns, by rw [f3]; exact h.root⟩
+  rw [tracked_updatePending, he, h.te]
+  constructor
+  · rintro (h1 | rfl)
+    · exact h1
+    · exact elig_of_live s l hl hv
+  · exact Or.inl
 
-theorem find?_some_id (s : St) (id : Nat) (l : Lease) (h : find? s id = some l) : l.id = id ∧ l ∈ s.stored := by
-  unfold find? at h
-  have h1 := List.find?_some h
-  exact ⟨by simpa using h1, List.mem_of_find?_eq_some h⟩
+theorem live_congr (s t : St) (l : Lease) (h6 : t.sealed = s.sealed) (h7 : t.held = s.held) : live t l ↔ live s l := by
+  rw [live_iff, live_iff, h6, h7]
+
+/-- an existing entry is rewritten (same id, same namespace) and `updatePending`ed -/
+theorem Inv_replace (s : St) (h : Inv s) (l l' : Lease) (hl : l ∈ s.stored) (hv : live s l)
+    (hid : l'.id = l.id) (hns : l'.ns = l.ns) : Inv (updatePending (putLease s l') l') := by
+  obtain ⟨p1, p2, p3, _, _, _, p7, p8, p9, p10, _⟩ := putLease_frame s l'
+  have h1 : Inv (putLease s l') :=
+    Inv_congr s _ h (sig_putLease_same s h.uniq l l' hl hid hns) p1 p2 p3 p7 p8 p9 p10
+  apply Inv_track _ h1 l' (mem_putLease s l')
+  rw [live_congr s (putLease s l') l' p8 p9, live_iff, hid, hns]
+  exact (live_iff s l).mp hv
+
+/-- a new entry with the next fresh id in a namespace that is not sealed -/
+theorem Inv_create (s : St) (h : Inv s) (l' : Lease) (hid : l'.id = s.next) (hns : s.sealed.contains l'.ns = false) :
+    Inv (updatePending (putLease { s with next := s.next + 1 } l') l') := by
+  have hf : ∀ p ∈ sig s, p.1 ≠ l'.id := fun p hp => by rw [hid]; exact Nat.ne_of_lt (h.fresh p hp)
+  obtain ⟨p1, p2, p3, _, _, _, p7, p8, p9, p10, _⟩ := putLease_frame { s with next := s.next + 1 } l'
+  obtain ⟨f1, f2, f3, f4, f5, _⟩ := updatePending_frame (putLease { s with next := s.next + 1 } l') l'
+  have hsig : sig (updatePending (putLease { s with next := s.next + 1 } l') l') = sig s ++ [(l'.id, l'.ns)] := by
+    have := sig_putLease_fresh { s with next := s.next + 1 } l' hf
+    unfold sig at this ⊢
+    rw [f1]; exact this
+  have hheld : s.held.any (·.2 == l'.id) = false := by
+    rw [Bool.eq_false_iff]
+    intro hc
+    obtain ⟨x, hx, hxl⟩ := List.any_eq_true.mp hc
+    have := h.hfresh x hx
+    rw [beq_iff_eq.mp hxl, hid] at this
+    exact Nat.lt_irrefl _ this
+  have hmark : ∀ m ∈ s.marks, m.1 ≠ l'.id := fun m hm => by rw [hid]; exact Nat.ne_of_lt (h.mfresh m hm)
+  have hh : ∀ x ∈ s.held, x.2 ≠ l'.id := fun x hx => by rw [hid]; exact Nat.ne_of_lt (h.hfresh x hx)
+  have hsealed : (updatePending (putLease { s with next := s.next + 1 } l') l').sealed = s.sealed := by rw [f3, p8]
+  have hheld' : (updatePending (putLease { s with next := s.next + 1 } l') l').held = s.held := by rw [f4, p9]
+  have hmarks : (updatePending (putLease { s with next := s.next + 1 } l') l').marks = s.marks := by rw [f2, p7]
+  have hnext : (updatePending (putLease { s with next := s.next + 1 } l') l').next = s.next + 1 := by rw [f5, p10]
+  refine ⟨fun id => ?_, ?_, ?_, ?_, ?_, ?_, ?_, ?_, ?_⟩
+  · rw [tracked_updatePending]
+    have ht : tracked (putLease { s with next := s.next + 1 } l') id ↔ tracked s id := by
+      unfold tracked; rw [p1, p2, p3]
+    rw [ht, h.te]
+    unfold elig
+    rw [hsig, hsealed, hheld']
+    constructor
+    · rintro (⟨p, hp, rest⟩ | rfl)
+      · exact ⟨p, List.mem_append_left _ hp, rest⟩
+      · exact ⟨(l'.id, l'.ns), List.mem_append_right _ (List.mem_singleton.mpr rfl), rfl, hns, hheld⟩
+    · rintro ⟨p, hp, hpid, hs, hhh⟩
+      rcases List.mem_append.mp hp with hp | hp
+      · exact Or.inl ⟨p, hp, hpid, hs, hhh⟩
+      · simp only [List.mem_singleton] at hp
+        subst hp
+        exact Or.inr hpid.symm
+  · rw [hsig]
+    intro p hp q hq hpq
+    rcases List.mem_append.mp hp with hp | hp <;> rcases List.mem_append.mp hq with hq | hq
+    · exact h.uniq p hp q hq hpq
+    · simp only [List.mem_singleton] at hq; subst hq; exact absurd hpq (hf p hp)
+    · simp only [List.mem_singleton] at hp; subst hp; exact absurd hpq.symm (hf q hq)
+    · simp only [List.mem_singleton] at hp hq; rw [hp, hq]
+  · rw [hsig, hnext]
+    intro p hp
+    rcases List.mem_append.mp hp with hp | hp
+    · exact Nat.lt_succ_of_lt (h.fresh p hp)
+    · simp only [List.mem_singleton] at hp; subst hp; simp [hid]
+  · rw [hmarks, hnext]; exact fun m hm => Nat.lt_succ_of_lt (h.mfresh m hm)
+  · rw [hmarks, hsig]
+    intro m hm p hp hpm
+    rcases List.mem_append.mp hp with hp | hp
+    · exact h.mns m hm p hp hpm
+    · simp only [List.mem_singleton] at hp; subst hp; exact absurd hpm.symm (hmark m hm)
+  · rw [hmarks, hsealed, hheld']; exact h.mlive
+  · rw [hheld', hnext]; exact fun x hx => Nat.lt_succ_of_lt (h.hfresh x hx)
+  · rw [hheld', hsealed, hsig]
+    intro x hx
+    refine ⟨(h.hns x hx).1, fun p hp hpx => ?_⟩
+    rcases List.mem_append.mp hp with hp | hp
+    · exact (h.hns x hx).2 p hp hpx
+    · simp only [List.mem_singleton] at hp; subst hp; exact absurd hpx.symm (hh x hx)
+  · rw [hsealed]; exact h.root
+
+/-- an entry is deleted and untracked -/
+theorem Inv_delete (s : St) (h : Inv s) (x : Nat) : Inv (untrack (delLease s x) x) := by
+  have hsig : sig (untrack (delLease s x) x) = (sig s).filter (·.1 != x) := sig_delLease s x
+  have hsub : ∀ p ∈ sig (untrack (delLease s x) x), p ∈ sig s := fun p hp => by
+    rw [hsig] at hp; exact (List.mem_filter.mp hp).1
+  refine ⟨fun id => ?_, fun p hp q hq => h.uniq p (hsub p hp) q (hsub q hq), fun p hp => h.fresh p (hsub p hp),
+    h.mfresh, fun m hm p hp => h.mns m hm p (hsub p hp), h.mlive, h.hfresh,
+    fun y hy => ⟨(h.hns y hy).1, fun p hp => (h.hns y hy).2 p (hsub p hp)⟩, h.root⟩
+  rw [tracked_untrack]
+  have : tracked (delLease s x) id ↔ tracked s id := Iff.rfl
+  rw [this, h.te]
+  unfold elig
+  rw [hsig]
+  show _ ↔ ∃ p ∈ List.filter (fun p => p.1 != x) (sig s), p.1 = id ∧ s.sealed.contains p.2 = false ∧ s.held.any (·.2 == id) = false
+  constructor
+  · rintro ⟨⟨p, hp, hpid, rest⟩, hne⟩
+    exact ⟨p, List.mem_filter.mpr ⟨hp, by simpa [hpid] using hne⟩, hpid, rest⟩
+  · rintro ⟨p, hp, hpid, rest⟩
+    obtain ⟨hp1, hp2⟩ := List.mem_filter.mp hp
+    exact ⟨⟨p, hp1, hpid, rest⟩, by rw [← hpid]; simpa using hp2⟩
+
+/-- a stored, reachable lease is marked in `restoreLoaded` -/
+theorem Inv_mark (s : St) (h : Inv s) (l : Lease) (hl : l ∈ s.stored) (hv : live s l) :
+    Inv { s with marks := s.marks ++ [(l.id, l.ns)] } := by
+  have hp : (l.id, l.ns) ∈ sig s := (mem_sig s _).mpr ⟨l, hl, rfl⟩
+  refine ⟨h.te, h.uniq, h.fresh, ?_, ?_, ?_, h.hfresh, h.hns, h.root⟩
+  · intro m hm
+    rcases List.mem_append.mp hm with hm | hm
+    · exact h.mfresh m hm
+    · simp only [List.mem_singleton] at hm; subst hm; exact h.fresh _ hp
+  · intro m hm p hp' hpm
+    rcases List.mem_append.mp hm with hm | hm
+    · exact h.mns m hm p hp' hpm
+    · simp only [List.mem_singleton] at hm; subst hm
+      have := h.uniq p hp' _ hp hpm
+      rw [this]
+  · intro m hm
+    rcases List.mem_append.mp hm with hm | hm
+    · exact h.mlive m hm
+    · simp only [List.mem_singleton] at hm; subst hm
+      exact (live_iff s l).mp hv
+
+theorem Inv_loadMark (s : St) (h : Inv s) (l : Lease) (hl : l ∈ s.stored) (hv : live s l) : Inv (loadMark s l) := by
+  unfold loadMark
+  split
+  · exact Inv_track _ (Inv_mark s h l hl hv) l hl hv
+  · exact h
+
+theorem Inv_processRestore (s : St) (h : Inv s) (l : Lease) (hl : l ∈ s.stored) (hv : live s l) :
+    Inv (processRestore s l) := by
+  unfold processRestore
+  split
+  · exact h
+  · exact Inv_track _ (Inv_mark s h l hl hv) l hl hv
+
+/-- `loadMark` / `processRestore` leave storage, sealing and holds alone -/
+theorem loadMark_frame (s : St) (l : Lease) :
+    (loadMark s l).stored = s.stored ∧ (loadMark s l).sealed = s.sealed ∧ (loadMark s l).held = s.held ∧
+    (loadMark s l).frozen = s.frozen ∧ (loadMark s l).calls = s.calls ∧ (loadMark s l).outOfFuel = s.outOfFuel ∧
+    (loadMark s l).restoreMode = s.restoreMode := by
+  unfold loadMark
+  split
+  · obtain ⟨f1, _, f3, f4, _, f6, f7, f8, f9⟩ := updatePending_frame { s with marks := s.marks ++ [(l.id, l.ns)] } l
+    exact ⟨f1, f3, f4, f6, f7, f8, f9⟩
+  · exact ⟨rfl, rfl, rfl, rfl, rfl, rfl, rfl⟩
+
+/-! ### revocation paths -/
+
+theorem live_loadMark (s : St) (l0 l : Lease) : live (loadMark s l0) l ↔ live s l :=
+  live_congr s _ l (loadMark_frame s l0).2.1 (loadMark_frame s l0).2.2.1
 
 theorem Inv_lazyRevoke (s : St) (id : Nat) (now : Int) (h : Inv s) : Inv (lazyRevoke s id now) := by
   unfold lazyRevoke
   split
   · exact h
-  · exact Inv_put_update _ _ h
+  · rename_i l hl
+    obtain ⟨_, hmem⟩ := find?_some_id s id l hl
+    split
+    · exact h
+    · rename_i hu
+      have hv : live s l := by simpa [live] using hu
+      have h1 := Inv_loadMark s h l hmem hv
+      exact Inv_replace _ h1 l _ (by rw [(loadMark_frame s l).1]; exact hmem) ((live_loadMark s l l).mpr hv) rfl rfl
 
 theorem Inv_foldl_lazyRevoke (ids : List Nat) (s : St) (now : Int) (h : Inv s) :
     Inv (ids.foldl (fun s o => lazyRevoke s o now) s) := by
@@ -115,79 +346,92 @@ theorem Inv_foldl_lazyRevoke (ids : List Nat) (s : St) (now : Int) (h : Inv s) :
   | nil => exact h
   | cons a t ih => exact ih _ (Inv_lazyRevoke s a now h)
 
-theorem Inv_revokeToken (s : St) (id : Nat) (now : Int) (h : Inv s) : Inv (revokeToken s id now) := by
+theorem Inv_revokeToken (s : St) (id : Nat) (now : Int) (h : Inv s) (hlv : ∀ l, find? s id = some l → live s l) :
+    Inv (revokeToken s id now) := by
   unfold revokeToken
-  exact Inv_del_untrack _ _ (Inv_foldl_lazyRevoke _ _ _ h)
+  apply Inv_delete
+  apply Inv_foldl_lazyRevoke
+  cases hf : find? s id with
+  | none => exact h
+  | some l => exact Inv_loadMark s h l (find?_some_id s id l hf).2 (hlv l hf)
 
-/-- the backend call touches neither storage nor the tracking maps -/
+/-- the backend call touches neither storage nor any tracking state -/
 theorem backendRevoke_frame (s : St) (id : Nat) :
     (backendRevoke s id).2.stored = s.stored ∧ (backendRevoke s id).2.pending = s.pending ∧
-    (backendRevoke s id).2.irrevocable = s.irrevocable ∧ (backendRevoke s id).2.nonexpiring = s.nonexpiring := by
+    (backendRevoke s id).2.irrevocable = s.irrevocable ∧ (backendRevoke s id).2.nonexpiring = s.nonexpiring ∧
+    (backendRevoke s id).2.marks = s.marks ∧ (backendRevoke s id).2.sealed = s.sealed ∧
+    (backendRevoke s id).2.held = s.held ∧ (backendRevoke s id).2.next = s.next ∧
+    (backendRevoke s id).2.frozen = s.frozen ∧ (backendRevoke s id).2.outOfFuel = s.outOfFuel ∧
+    (backendRevoke s id).2.calls = s.calls + 1 ∧ (backendRevoke s id).2.restoreMode = s.restoreMode := by
   unfold backendRevoke
   simp only
-  split <;> exact ⟨rfl, rfl, rfl, rfl⟩
+  split <;> exact ⟨rfl, rfl, rfl, rfl, rfl, rfl, rfl, rfl, rfl, rfl, rfl, rfl⟩
 
 theorem Inv_backendRevoke (s : St) (id : Nat) (h : Inv s) : Inv (backendRevoke s id).2 := by
-  obtain ⟨h1, h2, h3, h4⟩ := backendRevoke_frame s id
-  intro x
-  have := h x
-  unfold sid tracked at this ⊢
-  rw [h1, h2, h3, h4]; exact this
-
-theorem putLease_frame (s : St) (l : Lease) :
-    (putLease s l).pending = s.pending ∧ (putLease s l).irrevocable = s.irrevocable ∧
-    (putLease s l).nonexpiring = s.nonexpiring ∧ (putLease s l).calls = s.calls ∧
-    (putLease s l).outOfFuel = s.outOfFuel ∧ (putLease s l).frozen = s.frozen := by
-  unfold putLease; split <;> exact ⟨rfl, rfl, rfl, rfl, rfl, rfl⟩
+  obtain ⟨h1, h2, h3, h4, h5, h6, h7, h8, _⟩ := backendRevoke_frame s id
+  exact Inv_congr s _ h (by unfold sig; rw [h1]) h2 h3 h4 h5 h6 h7 h8
 
 theorem markIrrevocable_frame (s : St) (l : Lease) :
     (markIrrevocable s l).calls = s.calls ∧ (markIrrevocable s l).outOfFuel = s.outOfFuel ∧
     (markIrrevocable s l).frozen = s.frozen ∧ l.id ∈ (markIrrevocable s l).irrevocable := by
-  obtain ⟨_, _, _, h4, h5, h6⟩ := putLease_frame s { l with irrevocable := true }
+  obtain ⟨_, _, _, h4, h5, h6, _⟩ := putLease_frame s { l with irrevocable := true }
   unfold markIrrevocable
   exact ⟨h4, h5, h6, by simp [mem_ins]⟩
 
-theorem sid_markIrrevocable (s : St) (l : Lease) (id : Nat) :
-    sid (markIrrevocable s l) id ↔ sid s id ∨ id = l.id := by
-  have := sid_putLease s { l with irrevocable := true } id
-  exact this
-
-theorem Inv_markIrrevocable (s : St) (l : Lease) (h : Inv s) (hs : sid s l.id) : Inv (markIrrevocable s l) := by
-  intro id
-  rw [sid_markIrrevocable]
-  obtain ⟨hpp, hpi, hpn, _⟩ := putLease_frame s { l with irrevocable := true }
+theorem Inv_markIrrevocable (s : St) (l : Lease) (h : Inv s) (hl : l ∈ s.stored) (hv : live s l) :
+    Inv (markIrrevocable s l) := by
+  obtain ⟨p1, p2, p3, _, _, _, p7, p8, p9, p10, _⟩ := putLease_frame s { l with irrevocable := true }
+  have hsig : sig (markIrrevocable s l) = sig s :=
+    sig_putLease_same s h.uniq l { l with irrevocable := true } hl rfl rfl
+  have hm : (markIrrevocable s l).marks = s.marks := p7
+  have hs : (markIrrevocable s l).sealed = s.sealed := p8
+  have hh : (markIrrevocable s l).held = s.held := p9
+  have hn : (markIrrevocable s l).next = s.next := p10
+  have he : ∀ id, elig (markIrrevocable s l) id ↔ elig s id := fun id => by unfold elig; rw [hsig, hs, hh]
+  refine ⟨fun id => ?_, by rw [hsig]; exact h.uniq, by rw [hsig, hn]; exact h.fresh, by rw [hm, hn]; exact h.mfresh,
+    by rw [hm, hsig]; exact h.mns, by rw [hm, hs, hh]; exact h.mlive, by rw [hh, hn]; exact h.hfresh,
+    by rw [hh, hs, hsig]; exact h.hns, by rw [hs]; exact h.root⟩
+  rw [he]
+  have h0 := h.te id
   unfold markIrrevocable tracked
-  simp only [mem_ins, mem_rm, hpp, hpi, hpn]
-  have h0 := h id
+  simp only [mem_ins, mem_rm, p1, p2, p3]
   unfold tracked at h0
   by_cases hid : id = l.id
-  · subst hid; simp [hs]
+  · subst hid
+    simp only [ne_eq, not_true_eq_false, and_false, or_true, false_or, true_iff]
+    first
+      | exact elig_of_live s l hl hv
+      | exact ⟨fun _ => elig_of_live s l hl hv, fun _ => Or.inl trivial⟩
   · simp only [hid, or_false, ne_eq, not_false_eq_true, and_true]
     exact h0
 
-theorem Inv_outOfFuel (s : St) (h : Inv s) : Inv { s with outOfFuel := true } := h
-
-theorem Inv_secretJob (fuel : Nat) (s : St) (l : Lease) (a : Nat) (h : Inv s) (hs : sid s l.id) :
+theorem Inv_secretJob (fuel : Nat) (s : St) (l : Lease) (a : Nat) (h : Inv s) (hl : l ∈ s.stored) (hv : live s l) :
     Inv (secretJob fuel s l a) := by
   induction fuel generalizing s a with
-  | zero => exact h
+  | zero => exact Inv_congr s _ h rfl rfl rfl rfl rfl rfl rfl rfl
   | succ n ih =>
     unfold secretJob
-    have hb := Inv_backendRevoke s l.id h
-    have hsb : sid (backendRevoke s l.id).2 l.id := by
-      unfold sid; rw [(backendRevoke_frame s l.id).1]; exact hs
-    generalize backendRevoke s l.id = r at hb hsb
-    obtain ⟨ok, s1⟩ := r
-    simp only at hb hsb ⊢
+    dsimp only
+    have h1 := Inv_loadMark s h l hl hv
+    have hl1 : l ∈ (loadMark s l).stored := by rw [(loadMark_frame s l).1]; exact hl
+    have hv1 : live (loadMark s l) l := (live_loadMark s l l).mpr hv
+    generalize loadMark s l = s1 at h1 hl1 hv1 ⊢
+    have hb := Inv_backendRevoke s1 l.id h1
+    obtain ⟨b1, _, _, _, _, b6, b7, _⟩ := backendRevoke_frame s1 l.id
+    have hl2 : l ∈ (backendRevoke s1 l.id).2.stored := by rw [b1]; exact hl1
+    have hv2 : live (backendRevoke s1 l.id).2 l := (live_congr s1 _ l b6 b7).mpr hv1
+    generalize backendRevoke s1 l.id = r at hb hl2 hv2 ⊢
+    obtain ⟨ok, s2⟩ := r
+    simp only at hb hl2 hv2 ⊢
     split
-    · exact Inv_del_untrack _ _ hb
+    · exact Inv_delete _ hb _
     · split
-      · exact Inv_markIrrevocable s1 l hb hsb
-      · exact ih s1 _ hb hsb
+      · exact Inv_markIrrevocable s2 l hb hl2 hv2
+      · exact ih s2 _ hb hl2 hv2
 
 theorem Inv_settle (fuel : Nat) (s : St) (now : Int) (h : Inv s) : Inv (settle fuel s now) := by
   induction fuel generalizing s with
-  | zero => exact h
+  | zero => exact Inv_congr s _ h rfl rfl rfl rfl rfl rfl rfl rfl
   | succ n ih =>
     unfold settle
     split
@@ -197,11 +441,433 @@ theorem Inv_settle (fuel : Nat) (s : St) (now : Int) (h : Inv s) : Inv (settle f
       · rename_i l hl
         apply ih
         have hmem := List.mem_of_find?_eq_some hl
+        have hp := List.find?_some hl
+        simp only [Bool.and_eq_true, List.contains_eq_mem, decide_eq_true_eq] at hp
+        have hv : live s l := live_of_elig s h l hmem ((h.te l.id).mp (Or.inl hp.1))
         split
-        · exact Inv_revokeToken _ _ _ h
-        · exact Inv_secretJob _ _ _ _ h ⟨l, hmem, rfl⟩
+        · apply Inv_revokeToken _ _ _ h
+          intro l' hl'
+          obtain ⟨hid', hmem'⟩ := find?_some_id s l.id l' hl'
+          exact live_of_elig s h l' hmem' (by rw [hid']; exact (h.te l.id).mp (Or.inl hp.1))
+        · exact Inv_secretJob _ _ _ _ h hmem hv
 
-theorem Inv_restore (ls : List Lease) (s : St) (id : Nat) :
+theorem Inv_revokeSync (s : St) (l : Lease) (now : Int) (h : Inv s) (hl : l ∈ s.stored) (hv : live s l) :
+    Inv (revokeSync s l now).2 := by
+  unfold revokeSync
+  split
+  · apply Inv_revokeToken _ _ _ h
+    intro l' hl'
+    obtain ⟨hid', hmem'⟩ := find?_some_id s l.id l' hl'
+    exact live_of_elig s h l' hmem' (by rw [hid']; exact elig_of_live s l hl hv)
+  · dsimp only
+    have h1 := Inv_loadMark s h l hl hv
+    generalize loadMark s l = s1 at h1 ⊢
+    have hb := Inv_backendRevoke s1 l.id h1
+    generalize backendRevoke s1 l.id = r at hb ⊢
+    obtain ⟨ok, s2⟩ := r
+    simp only at hb ⊢
+    split
+    · exact Inv_delete _ hb _
+    · exact hb
+
+/-! ### namespaces: seal, the collect / release steps of an unseal, the drain -/
+
+theorem filter_eq_self_of_none (l : List (Nat × Nat)) (x : Nat) (h : l.any (·.2 == x) = false) :
+    l.filter (·.2 != x) = l := by
+  apply List.filter_eq_self.mpr
+  intro a ha
+  have : (a.2 == x) = false := by
+    rw [Bool.eq_false_iff]
+    intro hc
+    have : l.any (·.2 == x) = true := List.any_eq_true.mpr ⟨a, ha, hc⟩
+    rw [h] at this; exact absurd this (by simp)
+  simp [bne, this]
+
+theorem Inv_drain (s : St) (h : Inv s) (ns : Nat) (k : Nat) :
+    Inv (drainMarks { s with restoreMode := k } ns) := by
+  have hsub : ∀ m ∈ (drainMarks { s with restoreMode := k } ns).marks, m ∈ s.marks := fun m hm =>
+    (List.mem_filter.mp hm).1
+  exact ⟨h.te, h.uniq, h.fresh, fun m hm => h.mfresh m (hsub m hm), fun m hm => h.mns m (hsub m hm),
+    fun m hm => h.mlive m (hsub m hm), h.hfresh, h.hns, h.root⟩
+
+theorem releaseRestore_frame (s : St) (l : Lease) :
+    (releaseRestore s l).stored = s.stored ∧ (releaseRestore s l).sealed = s.sealed ∧
+    (releaseRestore s l).next = s.next := by
+  unfold releaseRestore processRestore
+  split
+  · exact ⟨rfl, rfl, rfl⟩
+  · obtain ⟨f1, _, f3, _, f5, _⟩ :=
+      updatePending_frame { s with held := s.held.filter (·.2 != l.id), marks := s.marks ++ [(l.id, l.ns)] } l
+    exact ⟨f1, f3, f5⟩
+
+/-- a collected (or already reachable) lease of an unsealed namespace is handled by a restore worker -/
+theorem Inv_releaseRestore (s : St) (h : Inv s) (l : Lease) (hl : l ∈ s.stored) (hs : s.sealed.contains l.ns = false) :
+    Inv (releaseRestore s l) := by
+  have hp : (l.id, l.ns) ∈ sig s := (mem_sig s _).mpr ⟨l, hl, rfl⟩
+  unfold releaseRestore processRestore
+  split
+  · -- marked: then it is not held, the filter changes nothing
+    rename_i hm
+    obtain ⟨m, hmm, hmid⟩ := List.any_eq_true.mp hm
+    have hnh := (h.mlive m hmm).2
+    rw [beq_iff_eq.mp hmid] at hnh
+    have : s.held.filter (·.2 != l.id) = s.held := filter_eq_self_of_none _ _ hnh
+    rw [this]
+    exact h
+  · rename_i hm
+    obtain ⟨f1, f2, f3, f4, f5, _⟩ :=
+      updatePending_frame { s with held := s.held.filter (·.2 != l.id), marks := s.marks ++ [(l.id, l.ns)] } l
+    have hheldsub : ∀ x ∈ s.held.filter (·.2 != l.id), x ∈ s.held := fun x hx => (List.mem_filter.mp hx).1
+    have hany : ∀ id, id ≠ l.id → (s.held.filter (·.2 != l.id)).any (·.2 == id) = s.held.any (·.2 == id) := by
+      intro id hne
+      rw [Bool.eq_iff_iff]
+      simp only [List.any_eq_true, List.mem_filter]
+      constructor
+      · rintro ⟨x, ⟨hx, _⟩, hxid⟩; exact ⟨x, hx, hxid⟩
+      · rintro ⟨x, hx, hxid⟩
+        refine ⟨x, ⟨hx, ?_⟩, hxid⟩
+        simp only [bne_iff_ne, ne_eq]
+        rw [beq_iff_eq.mp hxid]; exact hne
+    have hnone : (s.held.filter (·.2 != l.id)).any (·.2 == l.id) = false := by
+      rw [Bool.eq_false_iff]
+      intro hc
+      obtain ⟨x, hx, hxid⟩ := List.any_eq_true.mp hc
+      have := (List.mem_filter.mp hx).2
+      simp [beq_iff_eq.mp hxid] at this
+    refine ⟨fun id => ?_, ?_, ?_, ?_, ?_, ?_, ?_, ?_, ?_⟩
+    · rw [tracked_updatePending]
+      have ht : tracked { s with held := s.held.filter (·.2 != l.id), marks := s.marks ++ [(l.id, l.ns)] } id ↔ tracked s id :=
+        Iff.rfl
+      rw [ht, h.te]
+      unfold elig sig
+      rw [f1, f3, f4]
+      show _ ↔ ∃ p ∈ sig s, p.1 = id ∧ s.sealed.contains p.2 = false ∧ (s.held.filter (·.2 != l.id)).any (·.2 == id) = false
+      by_cases hid : id = l.id
+      · subst hid
+        constructor
+        · intro _; exact ⟨(l.id, l.ns), hp, rfl, hs, hnone⟩
+        · intro _; exact Or.inr rfl
+      · rw [hany id hid]
+        constructor
+        · rintro (h1 | h1)
+          · exact h1
+          · exact absurd h1 hid
+        · intro h1; exact Or.inl h1
+    · unfold sig; rw [f1]; exact h.uniq
+    · unfold sig; rw [f1, f5]; exact h.fresh
+    · rw [f2, f5]
+      intro m hm'
+      rcases List.mem_append.mp hm' with hm' | hm'
+      · exact h.mfresh m hm'
+      · simp only [List.mem_singleton] at hm'; subst hm'; exact h.fresh _ hp
+    · rw [f2]; unfold sig; rw [f1]
+      intro m hm' p hp' hpm
+      rcases List.mem_append.mp hm' with hm' | hm'
+      · exact h.mns m hm' p hp' hpm
+      · simp only [List.mem_singleton] at hm'; subst hm'
+        rw [h.uniq p hp' _ hp hpm]
+    · rw [f2, f3, f4]
+      intro m hm'
+      rcases List.mem_append.mp hm' with hm' | hm'
+      · refine ⟨(h.mlive m hm').1, ?_⟩
+        by_cases hmid : m.1 = l.id
+        · rw [hmid]; exact hnone
+        · rw [hany m.1 hmid]; exact (h.mlive m hm').2
+      · simp only [List.mem_singleton] at hm'; subst hm'; exact ⟨hs, hnone⟩
+    · rw [f4, f5]; exact fun x hx => h.hfresh x (hheldsub x hx)
+    · rw [f4, f3]; unfold sig; rw [f1]; exact fun x hx => h.hns x (hheldsub x hx)
+    · rw [f3]; exact h.root
+
+theorem Inv_foldl_releaseRestore (ls : List Lease) (s : St) (h : Inv s) (hl : ∀ l ∈ ls, l ∈ s.stored)
+    (hs : ∀ l ∈ ls, s.sealed.contains l.ns = false) : Inv (ls.foldl releaseRestore s) := by
+  induction ls generalizing s with
+  | nil => exact h
+  | cons a t ih =>
+    simp only [List.foldl_cons]
+    obtain ⟨f1, f2, _⟩ := releaseRestore_frame s a
+    apply ih _ (Inv_releaseRestore s h a (hl a (List.mem_cons_self ..)) (hs a (List.mem_cons_self ..)))
+    · intro l hlt; rw [f1]; exact hl l (List.mem_cons_of_mem _ hlt)
+    · intro l hlt; rw [f2]; exact hs l (List.mem_cons_of_mem _ hlt)
+
+theorem mem_nsLeases (s : St) (ns : Nat) (l : Lease) : l ∈ nsLeases s ns ↔ l ∈ s.stored ∧ l.ns = ns := by
+  simp [nsLeases]
+
+theorem contains_filter_ne (l : List Nat) (ns x : Nat) :
+    (l.filter (· != ns)).contains x = (l.contains x && x != ns) := by
+  rw [Bool.eq_iff_iff]
+  simp only [List.contains_eq_mem, List.mem_filter, decide_eq_true_eq, Bool.and_eq_true, bne_iff_ne, ne_eq]
+
+/-- the namespace is unsealed and all its leases are collected for the restore -/
+theorem Inv_unsealStart (s : St) (h : Inv s) (ns : Nat) (hns : s.sealed.contains ns = true) :
+    Inv (unsealStart s ns) := by
+  have hsealed : ∀ x, (unsealStart s ns).sealed.contains x = (s.sealed.contains x && x != ns) :=
+    fun x => contains_filter_ne s.sealed ns x
+  have hheld : ∀ id, (unsealStart s ns).held.any (·.2 == id) =
+      (s.held.any (·.2 == id) || (nsLeases s ns).any (·.id == id)) := by
+    intro id
+    simp only [unsealStart, List.any_append, List.any_map]
+    rfl
+  refine ⟨fun id => ?_, h.uniq, h.fresh, h.mfresh, h.mns, ?_, ?_, ?_, ?_⟩
+  · have ht : tracked (unsealStart s ns) id ↔ tracked s id := Iff.rfl
+    rw [ht, h.te]
+    unfold elig
+    show _ ↔ ∃ p ∈ sig s, p.1 = id ∧ (unsealStart s ns).sealed.contains p.2 = false ∧
+      (unsealStart s ns).held.any (·.2 == id) = false
+    constructor
+    · rintro ⟨p, hp, hpid, hs, hh⟩
+      refine ⟨p, hp, hpid, by rw [hsealed, hs]; rfl, ?_⟩
+      rw [hheld, hh, Bool.false_or, Bool.eq_false_iff]
+      intro hc
+      obtain ⟨l, hl, hlid⟩ := List.any_eq_true.mp hc
+      obtain ⟨hl1, hl2⟩ := (mem_nsLeases s ns l).mp hl
+      have := h.uniq p hp (l.id, l.ns) ((mem_sig s _).mpr ⟨l, hl1, rfl⟩) (by rw [hpid]; exact (beq_iff_eq.mp hlid).symm)
+      rw [this] at hs
+      simp only at hs
+      rw [hl2, hns] at hs
+      exact absurd hs (by simp)
+    · rintro ⟨p, hp, hpid, hs, hh⟩
+      rw [hheld, Bool.or_eq_false_iff] at hh
+      rw [hsealed, Bool.and_eq_false_iff] at hs
+      refine ⟨p, hp, hpid, ?_, hh.1⟩
+      rcases hs with hs | hs
+      · exact hs
+      · -- p is a lease of ns: then it is collected, contradiction
+        exfalso
+        have hpns : p.2 = ns := by simpa using hs
+        obtain ⟨l, hl, hlp⟩ := (mem_sig s p).mp hp
+        have : (nsLeases s ns).any (·.id == id) = true :=
+          List.any_eq_true.mpr ⟨l, (mem_nsLeases s ns l).mpr ⟨hl, by rw [← hpns, ← hlp]⟩, by
+            rw [← hpid, ← hlp]; simp⟩
+        rw [hh.2] at this
+        exact absurd this (by simp)
+  · intro m hm
+    refine ⟨by rw [hsealed, (h.mlive m hm).1]; rfl, ?_⟩
+    rw [hheld, (h.mlive m hm).2, Bool.false_or, Bool.eq_false_iff]
+    intro hc
+    obtain ⟨l, hl, hlid⟩ := List.any_eq_true.mp hc
+    obtain ⟨hl1, hl2⟩ := (mem_nsLeases s ns l).mp hl
+    have := h.mns m hm (l.id, l.ns) ((mem_sig s _).mpr ⟨l, hl1, rfl⟩) (beq_iff_eq.mp hlid)
+    simp only at this
+    have hm2 := (h.mlive m hm).1
+    rw [← this, hl2, hns] at hm2
+    exact absurd hm2 (by simp)
+  · intro x hx
+    rcases List.mem_append.mp hx with hx | hx
+    · exact h.hfresh x hx
+    · obtain ⟨l, hl, rfl⟩ := List.mem_map.mp hx
+      exact h.fresh (l.id, l.ns) ((mem_sig s _).mpr ⟨l, ((mem_nsLeases s ns l).mp hl).1, rfl⟩)
+  · intro x hx
+    rcases List.mem_append.mp hx with hx | hx
+    · refine ⟨by rw [hsealed, (h.hns x hx).1]; rfl, (h.hns x hx).2⟩
+    · obtain ⟨l, hl, rfl⟩ := List.mem_map.mp hx
+      obtain ⟨hl1, hl2⟩ := (mem_nsLeases s ns l).mp hl
+      refine ⟨by rw [hsealed]; simp, fun p hp hpid => ?_⟩
+      have := h.uniq p hp (l.id, l.ns) ((mem_sig s _).mpr ⟨l, hl1, rfl⟩) hpid
+      rw [this]; exact hl2
+  · rw [hsealed, h.root]; rfl
+
+theorem unsealStart_frame (s : St) (ns : Nat) :
+    (unsealStart s ns).stored = s.stored ∧ ∀ x, (unsealStart s ns).sealed.contains x = (s.sealed.contains x && x != ns) :=
+  ⟨rfl, fun x => contains_filter_ne s.sealed ns x⟩
+
+theorem tracked_foldl_untrack (ls : List Lease) (s : St) (id : Nat) :
+    tracked (ls.foldl (fun s l => untrack s l.id) s) id ↔ tracked s id ∧ ∀ l ∈ ls, l.id ≠ id := by
+  induction ls generalizing s with
+  | nil => simp
+  | cons a t ih =>
+    simp only [List.foldl_cons, List.mem_cons, forall_eq_or_imp]
+    rw [ih, tracked_untrack]
+    constructor
+    · rintro ⟨⟨h1, h2⟩, h3⟩; exact ⟨h1, fun hc => h2 hc.symm, h3⟩
+    · rintro ⟨h1, h2, h3⟩; exact ⟨⟨h1, fun hc => h2 hc.symm⟩, h3⟩
+
+theorem foldl_untrack_frame (ls : List Lease) (s : St) :
+    (ls.foldl (fun s l => untrack s l.id) s).stored = s.stored ∧ (ls.foldl (fun s l => untrack s l.id) s).marks = s.marks ∧
+    (ls.foldl (fun s l => untrack s l.id) s).sealed = s.sealed ∧ (ls.foldl (fun s l => untrack s l.id) s).held = s.held ∧
+    (ls.foldl (fun s l => untrack s l.id) s).next = s.next := by
+  induction ls generalizing s with
+  | nil => exact ⟨rfl, rfl, rfl, rfl, rfl⟩
+  | cons a t ih => simp only [List.foldl_cons]; exact ih (untrack s a.id)
+
+theorem Inv_sealNs (s : St) (h : Inv s) (ns : Nat) : Inv (sealNs s ns).1 := by
+  unfold sealNs
+  split
+  · exact h
+  · rename_i hc
+    simp only [Bool.or_eq_true, not_or, Bool.not_eq_true] at hc
+    obtain ⟨⟨hn0, hnsealed⟩, hnheld⟩ := hc
+    obtain ⟨g1, g2, g3, g4, g5⟩ := foldl_untrack_frame (nsLeases s ns) s
+    generalize hs1 : (nsLeases s ns).foldl (fun s l => untrack s l.id) s = s1 at g1 g2 g3 g4 g5
+    have htr : ∀ id, tracked s1 id ↔ tracked s id ∧ ∀ l ∈ nsLeases s ns, l.id ≠ id := fun id => by
+      rw [← hs1]; exact tracked_foldl_untrack _ s id
+    have hsig : sig s1 = sig s := by unfold sig; rw [g1]
+    have hcont : ∀ x, (s1.sealed ++ [ns]).contains x = (s.sealed.contains x || x == ns) := by
+      intro x
+      rw [g3, Bool.eq_iff_iff]
+      simp only [List.contains_eq_mem, List.mem_append, List.mem_singleton, decide_eq_true_eq, Bool.or_eq_true,
+        beq_iff_eq]
+    show Inv (drainMarks { s1 with sealed := s1.sealed ++ [ns] } ns)
+    have hsigt : sig (drainMarks { s1 with sealed := s1.sealed ++ [ns] } ns) = sig s := hsig
+    have hnextt : (drainMarks { s1 with sealed := s1.sealed ++ [ns] } ns).next = s.next := g5
+    refine ⟨fun id => ?_, by rw [hsigt]; exact h.uniq, by rw [hsigt, hnextt]; exact h.fresh, ?_, ?_, ?_, ?_, ?_, ?_⟩
+    · have ht : tracked (drainMarks { s1 with sealed := s1.sealed ++ [ns] } ns) id ↔ tracked s1 id := Iff.rfl
+      rw [ht, htr, h.te]
+      unfold elig
+      show _ ↔ ∃ p ∈ sig (drainMarks { s1 with sealed := s1.sealed ++ [ns] } ns), p.1 = id ∧
+        (s1.sealed ++ [ns]).contains p.2 = false ∧ s1.held.any (·.2 == id) = false
+      rw [hsigt, g4]
+      constructor
+      · rintro ⟨⟨p, hp, hpid, hs, hh⟩, hnot⟩
+        refine ⟨p, hp, hpid, ?_, hh⟩
+        rw [hcont, hs, Bool.false_or, Bool.eq_false_iff]
+        intro hpn
+        obtain ⟨l, hl, hlp⟩ := (mem_sig s p).mp hp
+        refine hnot l ((mem_nsLeases s ns l).mpr ⟨hl, ?_⟩) ?_
+        · rw [← beq_iff_eq.mp hpn, ← hlp]
+        · rw [← hpid, ← hlp]
+      · rintro ⟨p, hp, hpid, hs, hh⟩
+        rw [hcont, Bool.or_eq_false_iff] at hs
+        refine ⟨⟨p, hp, hpid, hs.1, hh⟩, fun l hl hlid => ?_⟩
+        obtain ⟨hl1, hl2⟩ := (mem_nsLeases s ns l).mp hl
+        have := h.uniq p hp (l.id, l.ns) ((mem_sig s _).mpr ⟨l, hl1, rfl⟩) (by rw [hpid, hlid])
+        have hs2 := hs.2
+        rw [this] at hs2
+        simp [hl2] at hs2
+    · intro m hm
+      have := (List.mem_filter.mp hm).1
+      rw [show (({ s1 with sealed := s1.sealed ++ [ns] } : St)).marks = s1.marks from rfl, g2] at this
+      rw [hnextt]; exact h.mfresh m this
+    · intro m hm
+      have := (List.mem_filter.mp hm).1
+      rw [show (({ s1 with sealed := s1.sealed ++ [ns] } : St)).marks = s1.marks from rfl, g2] at this
+      rw [hsigt]
+      exact h.mns m this
+    · intro m hm
+      obtain ⟨hm1, hm2⟩ := List.mem_filter.mp hm
+      rw [show (({ s1 with sealed := s1.sealed ++ [ns] } : St)).marks = s1.marks from rfl, g2] at hm1
+      show (s1.sealed ++ [ns]).contains m.2 = false ∧ s1.held.any (·.2 == m.1) = false
+      rw [hcont, g4, (h.mlive m hm1).1, Bool.false_or]
+      exact ⟨by simpa using hm2, (h.mlive m hm1).2⟩
+    · show ∀ x ∈ s1.held, x.2 < s1.next
+      rw [g4, g5]; exact h.hfresh
+    · show ∀ x ∈ s1.held, (s1.sealed ++ [ns]).contains x.1 = false ∧ ∀ p ∈ sig s1, p.1 = x.2 → p.2 = x.1
+      rw [g4, hsig]
+      intro x hx
+      refine ⟨?_, (h.hns x hx).2⟩
+      rw [hcont, (h.hns x hx).1, Bool.false_or, Bool.eq_false_iff]
+      intro hc
+      have : s.held.any (·.1 == ns) = true := List.any_eq_true.mpr ⟨x, hx, hc⟩
+      rw [hnheld] at this
+      exact absurd this (by simp)
+    · show (s1.sealed ++ [ns]).contains 0 = false
+      rw [hcont, h.root, Bool.false_or]
+      rw [Bool.eq_false_iff]; intro hc; exact absurd (beq_iff_eq.mp hc).symm (by simpa using hn0)
+
+/-! ### the unseal operations -/
+
+theorem Inv_unsealNs (s : St) (h : Inv s) (ns : Nat) (now : Int) : Inv (unsealNs s ns now).1 := by
+  unfold unsealNs
+  split
+  · exact h
+  · rename_i hc
+    have hns : s.sealed.contains ns = true := by simpa using hc
+    have h1 := Inv_unsealStart s h ns hns
+    obtain ⟨u1, u2⟩ := unsealStart_frame s ns
+    apply Inv_settle
+    apply Inv_drain
+    apply Inv_foldl_releaseRestore _ _ h1
+    · intro l hl; exact ((mem_nsLeases _ ns l).mp hl).1
+    · intro l hl
+      rw [u2, ((mem_nsLeases _ ns l).mp hl).2]; simp
+
+theorem Inv_unsealBegin (s : St) (h : Inv s) (ns hh : Nat) (now : Int) : Inv (unsealBegin s ns hh now).1 := by
+  unfold unsealBegin
+  split
+  · exact h
+  · rename_i hc
+    have hns : s.sealed.contains ns = true := by
+      simp only [Bool.or_eq_true, not_or, Bool.not_eq_true, Bool.not_eq_false'] at hc
+      simpa using hc.1
+    have h1 := Inv_unsealStart s h ns hns
+    obtain ⟨u1, u2⟩ := unsealStart_frame s ns
+    apply Inv_settle
+    apply Inv_foldl_releaseRestore _ _ h1
+    · intro l hl; exact ((mem_nsLeases _ ns l).mp (List.mem_filter.mp hl).1).1
+    · intro l hl
+      rw [u2, ((mem_nsLeases _ ns l).mp (List.mem_filter.mp hl).1).2]; simp
+
+theorem Inv_unsealEnd (s : St) (h : Inv s) (ns : Nat) (now : Int) : Inv (unsealEnd s ns now).1 := by
+  unfold unsealEnd
+  split
+  · exact h
+  · rename_i x hh hfind
+    have hmem : (x, hh) ∈ s.held := List.mem_of_find?_eq_some hfind
+    apply Inv_settle
+    apply Inv_drain
+    cases hf : find? s hh with
+    | some l =>
+      simp only
+      obtain ⟨hid, hl⟩ := find?_some_id s hh l hf
+      apply Inv_releaseRestore s h l hl
+      have := (h.hns _ hmem).2 (l.id, l.ns) ((mem_sig s _).mpr ⟨l, hl, rfl⟩) hid
+      simp only at this
+      rw [this]; exact (h.hns _ hmem).1
+    | none =>
+      simp only
+      -- no stored lease has this id: dropping the hold changes nothing that matters
+      have hno : ∀ p ∈ sig s, p.1 ≠ hh := by
+        intro p hp hpid
+        obtain ⟨l, hl, hlp⟩ := (mem_sig s p).mp hp
+        have : find? s hh ≠ none := by
+          unfold find?
+          intro hnone
+          have := List.find?_eq_none.mp hnone l hl
+          simp only [beq_iff_eq] at this
+          exact this (by rw [← hpid, ← hlp])
+        exact this hf
+      have hsub : ∀ y ∈ s.held.filter (·.2 != hh), y ∈ s.held := fun y hy => (List.mem_filter.mp hy).1
+      have hany : ∀ id, id ≠ hh → (s.held.filter (·.2 != hh)).any (·.2 == id) = s.held.any (·.2 == id) := by
+        intro id hne
+        rw [Bool.eq_iff_iff]
+        simp only [List.any_eq_true, List.mem_filter]
+        constructor
+        · rintro ⟨y, ⟨hy, _⟩, hyid⟩; exact ⟨y, hy, hyid⟩
+        · rintro ⟨y, hy, hyid⟩
+          refine ⟨y, ⟨hy, ?_⟩, hyid⟩
+          simp only [bne_iff_ne, ne_eq]
+          rw [beq_iff_eq.mp hyid]; exact hne
+      refine ⟨fun id => ?_, h.uniq, h.fresh, h.mfresh, h.mns, ?_, fun y hy => h.hfresh y (hsub y hy),
+        fun y hy => h.hns y (hsub y hy), h.root⟩
+      · have ht : tracked { s with held := s.held.filter (·.2 != hh) } id ↔ tracked s id := Iff.rfl
+        rw [ht, h.te]
+        unfold elig
+        show _ ↔ ∃ p ∈ sig s, p.1 = id ∧ s.sealed.contains p.2 = false ∧ (s.held.filter (·.2 != hh)).any (·.2 == id) = false
+        constructor
+        · rintro ⟨p, hp, hpid, hs, hhh⟩
+          exact ⟨p, hp, hpid, hs, by rw [hany id (by rw [← hpid]; exact hno p hp)]; exact hhh⟩
+        · rintro ⟨p, hp, hpid, hs, hhh⟩
+          exact ⟨p, hp, hpid, hs, by rw [← hany id (by rw [← hpid]; exact hno p hp)]; exact hhh⟩
+      · intro m hm
+        refine ⟨(h.mlive m hm).1, ?_⟩
+        by_cases hmid : m.1 = hh
+        · rw [Bool.eq_false_iff]
+          intro hc
+          obtain ⟨y, hy, hyid⟩ := List.any_eq_true.mp hc
+          have := (List.mem_filter.mp hy).2
+          simp [beq_iff_eq.mp hyid, hmid] at this
+        · rw [hany m.1 hmid]; exact (h.mlive m hm).2
+
+/-! ### restart: tracking is rebuilt from storage alone -/
+
+/-- what a restart needs of the state before it: storage is a map with fresh ids, the root namespace is not sealed -/
+structure WF (s : St) : Prop where
+  uniq : ∀ p ∈ sig s, ∀ q ∈ sig s, p.1 = q.1 → p = q
+  fresh : ∀ p ∈ sig s, p.1 < s.next
+  root : s.sealed.contains 0 = false
+
+theorem Inv.wf {s : St} (h : Inv s) : WF s := ⟨h.uniq, h.fresh, h.root⟩
+
+theorem tracked_restore (ls : List Lease) (s : St) (id : Nat) :
     tracked (restore ls s) id ↔ tracked s id ∨ ∃ l ∈ ls, l.id = id := by
   unfold restore
   induction ls generalizing s with
@@ -219,99 +885,218 @@ theorem Inv_restore (ls : List Lease) (s : St) (id : Nat) :
       · exact Or.inl (Or.inr rfl)
       · exact Or.inr ⟨l, hl, rfl⟩
 
-theorem stored_restore (ls : List Lease) (s : St) : (restore ls s).stored = s.stored := by
+theorem restore_frame (ls : List Lease) (s : St) :
+    (restore ls s).stored = s.stored ∧ (restore ls s).marks = s.marks ∧ (restore ls s).sealed = s.sealed ∧
+    (restore ls s).held = s.held ∧ (restore ls s).next = s.next := by
   unfold restore
   induction ls generalizing s with
-  | nil => rfl
-  | cons a t ih => simp only [List.foldl_cons]; rw [ih, stored_updatePending]
+  | nil => exact ⟨rfl, rfl, rfl, rfl, rfl⟩
+  | cons a t ih =>
+    simp only [List.foldl_cons]
+    obtain ⟨f1, f2, f3, f4, f5, _⟩ := updatePending_frame s a
+    obtain ⟨i1, i2, i3, i4, i5⟩ := ih (updatePending s a)
+    exact ⟨i1.trans f1, i2.trans f2, i3.trans f3, i4.trans f4, i5.trans f5⟩
 
-/-- a restart rebuilds tracking from WHATEVER is stored: no hypothesis on the state before -/
-theorem Inv_restart (s : St) (now : Int) : Inv (restart s now) := by
+theorem Inv_restore_of (s0 : St) (hw : WF s0) (e3 : s0.held = []) (e4 : s0.marks = []) (e6 : ∀ id, ¬ tracked s0 id) :
+    Inv (restore (s0.stored.filter fun l => !s0.sealed.contains l.ns) s0) := by
+  obtain ⟨r1, r2, r3, r4, r5⟩ := restore_frame (s0.stored.filter fun l => !s0.sealed.contains l.ns) s0
+  have hsig : sig (restore (s0.stored.filter fun l => !s0.sealed.contains l.ns) s0) = sig s0 := by
+    unfold sig; rw [r1]
+  refine ⟨fun id => ?_, by rw [hsig]; exact hw.uniq, by rw [hsig, r5]; exact hw.fresh, by rw [r2, e4]; simp,
+    by rw [r2, e4]; simp, by rw [r2, e4]; simp, by rw [r4, e3]; simp, by rw [r4, e3]; simp, by rw [r3]; exact hw.root⟩
+  rw [tracked_restore]
+  unfold elig
+  rw [hsig, r3, r4, e3]
+  constructor
+  · rintro (h1 | ⟨l, hl, rfl⟩)
+    · exact absurd h1 (e6 id)
+    · obtain ⟨hl1, hl2⟩ := List.mem_filter.mp hl
+      exact ⟨(l.id, l.ns), (mem_sig s0 _).mpr ⟨l, hl1, rfl⟩, rfl, by simpa using hl2, rfl⟩
+  · rintro ⟨p, hp, hpid, hs, _⟩
+    obtain ⟨l, hl, hlp⟩ := (mem_sig s0 p).mp hp
+    refine Or.inr ⟨l, List.mem_filter.mpr ⟨hl, ?_⟩, by rw [← hpid, ← hlp]⟩
+    rw [← hlp] at hs
+    simpa using hs
+
+/-- a restart rebuilds tracking from WHATEVER is stored (any memory, any marks, any holds before) -/
+theorem Inv_restart (s : St) (hw : WF s) (now : Int) : Inv (restart s now) := by
   unfold restart
   apply Inv_settle
-  intro id
-  rw [Inv_restore]
-  unfold sid
-  rw [stored_restore]
-  simp [tracked]
+  exact Inv_restore_of _ ⟨hw.uniq, hw.fresh, hw.root⟩ rfl rfl (fun id => by simp [tracked])
+
+/-! ### arbitrary storage content after a crash: normalised to a map -/
+
+theorem mem_dedupe (ls : List Lease) (l : Lease) : l ∈ dedupe ls → l ∈ ls := by
+  induction ls with
+  | nil => simp [dedupe]
+  | cons a t ih =>
+    unfold dedupe
+    intro h
+    rcases List.mem_cons.mp h with rfl | h
+    · exact List.mem_cons_self ..
+    · exact List.mem_cons_of_mem _ (ih (List.mem_filter.mp h).1)
+
+theorem dedupe_uniq (ls : List Lease) : ∀ a ∈ dedupe ls, ∀ b ∈ dedupe ls, a.id = b.id → a = b := by
+  induction ls with
+  | nil => simp [dedupe]
+  | cons x t ih =>
+    unfold dedupe
+    intro a ha b hb hab
+    rcases List.mem_cons.mp ha with rfl | ha <;> rcases List.mem_cons.mp hb with rfl | hb
+    · rfl
+    · have := (List.mem_filter.mp hb).2; simp [hab] at this
+    · have := (List.mem_filter.mp ha).2; simp [hab] at this
+    · exact ih a (List.mem_filter.mp ha).1 b (List.mem_filter.mp hb).1 hab
+
+theorem foldl_max_ge (ls : List Lease) (n : Nat) :
+    n ≤ ls.foldl (fun n l => max n (l.id + 1)) n ∧ ∀ l ∈ ls, l.id < ls.foldl (fun n l => max n (l.id + 1)) n := by
+  induction ls generalizing n with
+  | nil => simp
+  | cons a t ih =>
+    simp only [List.foldl_cons, List.mem_cons, forall_eq_or_imp]
+    obtain ⟨i1, i2⟩ := ih (max n (a.id + 1))
+    refine ⟨Nat.le_trans (Nat.le_max_left ..) i1, ?_, i2⟩
+    exact Nat.lt_of_lt_of_le (Nat.lt_of_lt_of_le (Nat.lt_succ_self _) (Nat.le_max_right n (a.id + 1))) i1
+
+theorem WF_crash (s : St) (h : Inv s) (stored : List Lease) :
+    WF { s with stored := dedupe stored, next := (dedupe stored).foldl (fun n l => max n (l.id + 1)) s.next } := by
+  refine ⟨?_, ?_, h.root⟩
+  · intro p hp q hq hpq
+    obtain ⟨a, ha, rfl⟩ := (mem_sig _ p).mp hp
+    obtain ⟨b, hb, rfl⟩ := (mem_sig _ q).mp hq
+    rw [dedupe_uniq stored a ha b hb hpq]
+  · intro p hp
+    obtain ⟨a, ha, rfl⟩ := (mem_sig _ p).mp hp
+    exact (foldl_max_ge (dedupe stored) s.next).2 a ha
+
+/-! ### every operation, every history -/
+
+theorem tokenLive_live (s : St) (id : Nat) (now : Int) (h : tokenLive s id now = true) (l : Lease)
+    (hl : find? s id = some l) : live s l := by
+  unfold tokenLive at h
+  rw [hl] at h
+  simp only [Bool.and_eq_true, Bool.not_eq_true'] at h
+  exact h.1.2
 
 theorem Inv_applyOp (s : St) (o : Op) (h : Inv s) : Inv (applyOp s o).1 := by
   cases o with
   | tokCreate ttl emax ren now =>
     simp only [applyOp, tokCreate]
     split
-    · exact Inv_put_update _ _ (by exact h)
+    · (dsimp only; refine Inv_create s h _ rfl ?_; exact h.root)
     · exact h
-  | rootCreate now => exact Inv_put_update _ _ (by exact h)
+  | rootCreate now =>
+    simp only [applyOp, rootCreate]
+    refine Inv_create s h _ ?_ ?_
+    · rfl
+    · exact h.root
   | reg owner ttl max ren now =>
     simp only [applyOp, reg]
     split
     · exact h
     · split
-      · exact Inv_put_update _ _ (by exact h)
+      · (dsimp only; refine Inv_create s h _ rfl ?_; exact h.root)
+      · exact h
+  | nsReg ns ttl max ren now =>
+    simp only [applyOp, nsReg]
+    split
+    · exact h
+    · rename_i hc
+      split
+      · dsimp only; refine Inv_create s h _ rfl ?_; simpa using hc
       · exact h
   | renew id incr now =>
     simp only [applyOp, renew]
     split
     · exact h
-    · split
+    · rename_i l hl
+      obtain ⟨_, hmem⟩ := find?_some_id s id l hl
+      split
       · exact h
-      · split
-        · exact Inv_put_update _ _ h
-        · exact h
-        · exact h
+      · rename_i hu
+        have hv : live s l := by simpa [live] using hu
+        have h1 := Inv_loadMark s h l hmem hv
+        have hm1 : l ∈ (loadMark s l).stored := by rw [(loadMark_frame s l).1]; exact hmem
+        have hv1 := (live_loadMark s l l).mpr hv
+        split
+        · exact h1
+        · split
+          · dsimp only; refine Inv_replace _ h1 l _ hm1 hv1 ?_ ?_ <;> rfl
+          · exact h1
+          · exact h1
   | tokRenew id incr now =>
     simp only [applyOp, tokRenew]
     split
     · exact h
-    · split
+    · rename_i ht
+      split
       · exact h
-      · split
-        · exact h
+      · rename_i l hl
+        obtain ⟨_, hmem⟩ := find?_some_id s id l hl
+        have hv : live s l := tokenLive_live s id now (by simpa using ht) l hl
+        have h1 := Inv_loadMark s h l hmem hv
+        have hm1 : l ∈ (loadMark s l).stored := by rw [(loadMark_frame s l).1]; exact hmem
+        have hv1 := (live_loadMark s l l).mpr hv
+        split
+        · exact h1
         · split
-          · exact Inv_put_update _ _ h
-          · exact h
-          · exact h
+          · dsimp only; refine Inv_replace _ h1 l _ hm1 hv1 ?_ ?_ <;> rfl
+          · exact h1
+          · exact h1
   | revoke id sync now =>
     simp only [applyOp, revoke]
     split
     · exact h
     · rename_i l hl
+      obtain ⟨_, hmem⟩ := find?_some_id s id l hl
       split
-      · have hr : Inv (revokeSync s l now).2 := by
-          unfold revokeSync
-          split
-          · exact Inv_revokeToken _ _ _ h
-          · have hb := Inv_backendRevoke s l.id h
-            generalize backendRevoke s l.id = r at hb
-            obtain ⟨ok, s1⟩ := r
-            simp only at hb ⊢
-            split
-            · exact Inv_del_untrack _ _ hb
-            · exact hb
-        generalize revokeSync s l now = r at hr
-        obtain ⟨ok, s1⟩ := r
-        cases ok
-        · exact hr
-        · exact Inv_settle _ _ _ hr
-      · exact Inv_settle _ _ _ (Inv_lazyRevoke _ _ _ h)
+      · exact h
+      · rename_i hu
+        have hv : live s l := by simpa [live] using hu
+        split
+        · have hr := Inv_revokeSync s l now h hmem hv
+          generalize revokeSync s l now = r at hr
+          obtain ⟨ok, s1⟩ := r
+          cases ok
+          · exact hr
+          · exact Inv_settle _ _ _ hr
+        · exact Inv_settle _ _ _ (Inv_lazyRevoke _ _ _ h)
   | tokRevoke id now =>
     simp only [applyOp, tokRevoke]
     split
     · exact h
-    · exact Inv_settle _ _ _ (Inv_revokeToken _ _ _ h)
+    · rename_i ht
+      exact Inv_settle _ _ _ (Inv_revokeToken _ _ _ h (tokenLive_live s id now (by simpa using ht)))
   | age id secs now =>
     simp only [applyOp, age]
     split
     · exact h
-    · exact Inv_settle _ _ _ (Inv_put_update _ _ h)
-  | setFail m => exact h
-  | freeze on => exact h
-  | restart now => exact Inv_restart s now
-  | crashRestart stored now => exact Inv_restart _ now
+    · rename_i l hl
+      obtain ⟨_, hmem⟩ := find?_some_id s id l hl
+      split
+      · exact h
+      · rename_i hu
+        have hv : live s l := by simpa [live] using hu
+        have h1 := Inv_loadMark s h l hmem hv
+        have hm1 : l ∈ (loadMark s l).stored := by rw [(loadMark_frame s l).1]; exact hmem
+        dsimp only
+        apply Inv_settle
+        refine Inv_replace _ h1 l _ hm1 ((live_loadMark s l l).mpr hv) ?_ ?_ <;> rfl
+  | setFail m => exact Inv_congr s _ h rfl rfl rfl rfl rfl rfl rfl rfl
+  | freeze on => exact Inv_congr s _ h rfl rfl rfl rfl rfl rfl rfl rfl
+  | restart now =>
+    simp only [applyOp]
+    split
+    · exact h
+    · exact Inv_restart s h.wf now
+  | sealNs ns => exact Inv_sealNs s h ns
+  | unsealNs ns now => exact Inv_unsealNs s h ns now
+  | unsealBegin ns hh now => exact Inv_unsealBegin s h ns hh now
+  | unsealEnd ns now => exact Inv_unsealEnd s h ns now
+  | crashRestart stored now => exact Inv_restart _ (WF_crash s h stored) now
 
 theorem Inv_init : Inv St.init := by
-  intro id; simp [sid, tracked, St.init]
+  refine ⟨fun id => ?_, ?_, ?_, ?_, ?_, ?_, ?_, ?_, rfl⟩ <;> simp [tracked, elig, sig, St.init]
 
 theorem Inv_run (ops : List Op) (s : St) (h : Inv s) : Inv (run s ops) := by
   induction ops generalizing s with
@@ -333,6 +1118,9 @@ theorem calcTTL_nonperiodic_bound (i : Inp) (ttl : Int) (w : Nat) (hp : i.period
     | contradiction
     | (simp only [Out.ok.injEq] at h; omega)
 
+/-- `id` has an entry in storage -/
+def sid (s : St) (id : Nat) : Prop := ∃ l ∈ s.stored, l.id = id
+
 /-- the retry loop of the revocation job, started with `a` failures behind it and enough fuel to reach the budget:
 it ends with the lease gone from storage or marked irrevocable, after at most `6 - a` further backend calls, and it
 never runs out of fuel -/
@@ -346,38 +1134,28 @@ theorem secretJob_budget (fuel : Nat) (s : St) (l : Lease) (a : Nat) (hf : a + f
   | zero => unfold maxRevokeAttempts at *; omega
   | succ n ih =>
     unfold secretJob
-    have hcalls : (backendRevoke s l.id).2.calls = s.calls + 1 := by
-      unfold backendRevoke; simp only; split <;> rfl
-    have hfuel : (backendRevoke s l.id).2.outOfFuel = s.outOfFuel := by
-      unfold backendRevoke; simp only; split <;> rfl
-    generalize backendRevoke s l.id = r at hcalls hfuel
+    dsimp only
+    have hcalls : (backendRevoke (loadMark s l) l.id).2.calls = s.calls + 1 := by
+      rw [(backendRevoke_frame _ _).2.2.2.2.2.2.2.2.2.2.1, (loadMark_frame s l).2.2.2.2.1]
+    have hfuel : (backendRevoke (loadMark s l) l.id).2.outOfFuel = s.outOfFuel := by
+      rw [(backendRevoke_frame _ _).2.2.2.2.2.2.2.2.2.1, (loadMark_frame s l).2.2.2.2.2.1]
+    generalize backendRevoke (loadMark s l) l.id = r at hcalls hfuel ⊢
     obtain ⟨ok, s1⟩ := r
     simp only at hcalls hfuel ⊢
     split
     · refine ⟨hfuel, ?_, Or.inl ?_⟩
       · show s1.calls ≤ _; unfold maxRevokeAttempts at *; omega
-      · rw [sid_untrack, sid_delLease]; exact fun h => h.2 rfl
+      · rintro ⟨l', hl', hid⟩
+        have : l' ∈ s1.stored.filter (·.id != l.id) := hl'
+        have := (List.mem_filter.mp this).2
+        simp [hid] at this
     · split
       · obtain ⟨hc, ho, _, hm⟩ := markIrrevocable_frame s1 l
         refine ⟨ho.trans hfuel, ?_, Or.inr ⟨hm, ?_⟩⟩
         · rw [hc]; unfold maxRevokeAttempts at *; omega
-        · have := (sid_putLease s1 { l with irrevocable := true } l.id).mpr (Or.inr rfl)
-          obtain ⟨l', hl', hid⟩ := this
-          refine ⟨l', hl', hid, ?_⟩
-          -- the entry with this id in `putLease` is the marked one
-          unfold putLease at hl'
-          split at hl'
-          · simp only [List.mem_map] at hl'
-            obtain ⟨y, _, rfl⟩ := hl'
-            by_cases hy : (y.id == l.id) = true
-            · simp [hy]
-            · simp only [hy] at hid ⊢
-              exact absurd (by simpa using hid) (by simpa using hy)
-          · simp only [List.mem_append, List.mem_singleton] at hl'
-            rcases hl' with h1 | rfl
-            · rename_i hnone
-              exact absurd (List.any_eq_true.mpr ⟨l', h1, by simpa using hid⟩) hnone
-            · rfl
+        · have hmp := mem_putLease s1 { l with irrevocable := true }
+          refine ⟨{ l with irrevocable := true }, hmp, rfl, ?_⟩
+          exact rfl
       · rename_i hnot
         have hlt : a + 1 < maxRevokeAttempts := by
           simp only [ge_iff_le, Bool.or_eq_true, decide_eq_true_eq, not_or] at hnot
@@ -398,7 +1176,10 @@ theorem lazyRevoke_frozen (s : St) (id : Nat) (now : Int) : (lazyRevoke s id now
   unfold lazyRevoke
   split
   · rfl
-  · rw [updatePending_frozen]; exact (putLease_frame _ _).2.2.2.2.2
+  · split
+    · rfl
+    · dsimp only
+      rw [updatePending_frozen, (putLease_frame _ _).2.2.2.2.2.1, (loadMark_frame _ _).2.2.2.1]
 
 theorem revokeToken_frozen (s : St) (id : Nat) (now : Int) : (revokeToken s id now).frozen = s.frozen := by
   unfold revokeToken
@@ -407,7 +1188,12 @@ theorem revokeToken_frozen (s : St) (id : Nat) (now : Int) : (revokeToken s id n
     induction ids with
     | nil => intro s; rfl
     | cons a t ih => intro s; simp only [List.foldl_cons]; rw [ih, lazyRevoke_frozen]
-  exact this _ s
+  dsimp only
+  show (List.foldl (fun s o => lazyRevoke s o now) _ _).frozen = s.frozen
+  rw [this]
+  cases find? s id with
+  | none => rfl
+  | some l => exact (loadMark_frame s l).2.2.2.1
 
 /-- when `settle` returns without having run out of fuel and the strategy is live, no tracked-as-pending lease is
 at or past its expiry: each was handed to a revocation job -/
@@ -445,9 +1231,10 @@ theorem settle_resolves (fuel : Nat) (s : St) (now : Int) (hfr : s.frozen = fals
             | succ m ihm =>
               intro s l a
               unfold secretJob
-              have hb : (backendRevoke s l.id).2.frozen = s.frozen := by
-                unfold backendRevoke; simp only; split <;> rfl
-              generalize backendRevoke s l.id = r at hb
+              dsimp only
+              have hb : (backendRevoke (loadMark s l) l.id).2.frozen = s.frozen := by
+                rw [(backendRevoke_frame _ _).2.2.2.2.2.2.2.2.1, (loadMark_frame s l).2.2.2.1]
+              generalize backendRevoke (loadMark s l) l.id = r at hb ⊢
               obtain ⟨ok, s1⟩ := r
               simp only at hb ⊢
               split
@@ -485,5 +1272,20 @@ theorem mem_putLease_of_stored (s : St) (l l2 : Lease) (hl : l ∈ s.stored) (hi
     List.any_eq_true.mpr ⟨l, hl, by simp [hid]⟩
   simp only [hany, if_true, List.mem_map]
   exact ⟨l, hl, by simp [hid]⟩
+
+theorem elig_iff (s : St) (id : Nat) :
+    elig s id ↔ ∃ l ∈ s.stored, l.id = id ∧ unreachable s l = false := by
+  unfold elig
+  constructor
+  · rintro ⟨p, hp, hpid, hs, hh⟩
+    obtain ⟨l, hl, hlp⟩ := (mem_sig s p).mp hp
+    refine ⟨l, hl, by rw [← hpid, ← hlp], ?_⟩
+    have h1 : l.id = id := by rw [← hpid, ← hlp]
+    have h2 : l.ns = p.2 := by rw [← hlp]
+    unfold unreachable
+    rw [h1, h2, hs, hh]; rfl
+  · rintro ⟨l, hl, hid, hu⟩
+    have := (live_iff s l).mp hu
+    exact ⟨(l.id, l.ns), (mem_sig s _).mpr ⟨l, hl, rfl⟩, hid, this.1, by rw [← hid]; exact this.2⟩
 
 end Obao.Expiration
